@@ -839,7 +839,9 @@ class QueryBuilder(Selectable, Term):  # type:ignore[misc]
             raise QueryException("Unsupported update_field")
 
         if update_value is not None:
-            self._on_conflict_do_updates.append((field, ValueWrapper(update_value)))
+            if not isinstance(update_value, Term):
+                update_value = ValueWrapper(update_value)
+            self._on_conflict_do_updates.append((field, update_value))
         else:
             self._on_conflict_do_updates.append((field, None))
 
